@@ -170,6 +170,21 @@ CHECKS["C07"] = dict(
    note=TB + "; termination of the loops is not proved; monitors/flush off here (C08).",
    ref="§6 C07")
 
+CHECKS["C08"] = dict(
+   technique="contract-based deductive verification with frame conditions: ghost attribute read/write logs recorded while "
+             "the real step / solve / restart / snapshot / monitor code is executed symbolically from the ast; "
+             "restart prologue and monitor methods against their contracts; z3 + evaluation",
+   text="For every integrator class (explicit, RK, low-storage, implicit family incl. the multistep gear; linear and "
+        "nonlinear models): the solver attributes step reads before writing and also writes (carried state) are either a "
+        "sound cache (Jacobian of a linear model, C06) or re-initialised by solve() (stale values planted and checked), "
+        "are not written on the trajectory solver by a snapshot sub-step (real code run, dynamic frame) nor by the monitors, "
+        "which also leave the trajectory state untouched; restart() continues the cumulative count from the field's "
+        "iteration tag and starts from the given state (with C07: every returned state carries its iteration); both "
+        "monitor kinds append exactly when totnit() % frequency == 0 with (totnit(), time, value of the trajectory state).",
+   note=TB + "; proved over the reals: 'bit-identical' additionally assumes deterministic numpy/BLAS (DESIGN §5.6); step/rhs/"
+        "averages abstract (deterministic functions of their arguments).",
+   ref="§6 C08")
+
 NA = {
  "C04": "convergence of a solve at the design order under mesh refinement is a limit statement over a family of meshes "
         "(and an empirical one for Riemann problems; the reference solutions wrap the external aerokit): no pre/postcondition "
